@@ -66,3 +66,50 @@ Definition op_ok (nq ns : nat) (o : op) : Prop :=
   | SMove j i => j < ns /\ i < nq
   | PoolPurge => True
   end.
+
+(* ------------------------------------------------------------------ written / consumed ledger *)
+(* a buffer: queue i or stack j *)
+Inductive kid := KQ (i : nat) | KS (j : nat).
+
+Definition kid_ok (nq ns : nat) (k : kid) : Prop :=
+  match k with KQ i => i < nq | KS j => j < ns end.
+
+Definition content (a : astate) (k : kid) : list N :=
+  match k with KQ i => geta (a_q a) i | KS j => geta (a_s a) j end.
+
+Definition isq (k : kid) (i : nat) : bool := match k with KQ i' => i' =? i | KS _ => false end.
+Definition iss (k : kid) (j : nat) : bool := match k with KS j' => j' =? j | KQ _ => false end.
+
+(* bytes that operation o, executed in abstract state a, puts INTO buffer k *)
+Definition put (a : astate) (o : op) (k : kid) : nat :=
+  match o with
+  | QWrite i d => if isq k i then length d else 0
+  | QWriteBE i w v => if isq k i then length (be_bytes w v) else 0
+  | QAppendMove i j => if isq k i then length (geta (a_q a) j) else 0
+  | SMove j i => if isq k i then length (geta (a_s a) j) else 0
+  | SWrite j d => if iss k j then length d else 0
+  | SWriteBE j w v => if iss k j then length (be_bytes w v) else 0
+  | _ => 0
+  end.
+
+(* bytes that operation o takes OUT OF buffer k: the bytes a read returns, the bytes a pop
+   removes (at most what is there), everything on Clear / destruction / being moved away *)
+Definition took (a : astate) (o : op) (k : kid) : nat :=
+  match o with
+  | QRead i n | QReadStr i n | QPop i n =>
+    if isq k i then Nat.min n (length (geta (a_q a) i)) else 0
+  | QClear i => if isq k i then length (geta (a_q a) i) else 0
+  | QAppendMove i j => if isq k j then length (geta (a_q a) j) else 0
+  | SRead j n | SReadStr j n | SPop j n =>
+    if iss k j then Nat.min n (length (geta (a_s a) j)) else 0
+  | SDestroy j => if iss k j then length (geta (a_s a) j) else 0
+  | SMove j i => if iss k j then length (geta (a_s a) j) else 0
+  | _ => 0
+  end.
+
+(* (bytes written into k, bytes consumed from k) along a history *)
+Fixpoint ledger (a : astate) (ops : list op) (k : kid) : nat * nat :=
+  match ops with
+  | [] => (0, 0)
+  | o :: r => let '(w, c) := ledger (fst (astep a o)) r k in (put a o k + w, took a o k + c)
+  end.
